@@ -253,7 +253,58 @@ def _case_variants(w):
         yield "".join(c.upper() if b else c for c, b in zip(w, bits))
 
 
+def confusables():
+    """ASCII letter -> non-ASCII characters that some case mapping (lower, upper, casefold,
+    NFKC) turns into that letter: U+017F long s, U+212A KELVIN SIGN, U+0131 dotless i, ligatures."""
+    import unicodedata
+    out = {}
+    for cp in range(128, 0x3000):
+        ch = chr(cp)
+        forms = {ch.lower(), ch.upper().lower(), ch.casefold(), unicodedata.normalize("NFKC", ch).lower(),
+                 unicodedata.normalize("NFKC", ch).casefold()}
+        for f in forms:
+            if f and f.isascii() and f.isalnum() and len(f) <= 2:
+                out.setdefault(f, set()).add(ch)
+    return out
+
+
+def confusable_variants(word, table, limit=40):
+    res = []
+    for i in range(len(word)):
+        for width in (1, 2):
+            piece = word[i:i + width].lower()
+            for ch in sorted(table.get(piece, ()))[:6]:
+                res.append(word[:i] + ch + word[i + width:])
+    return res[:limit]
+
+
+def _run_confusables(res):
+    table = confusables()
+    words = {
+        "boolean": ["yes", "true", "on", "no", "false", "off", "YES", "False"],
+        "byte-size": ["1kb", "2MB", "3gb"],
+        "time-interval": ["1s", "2m", "3h", "4d"],
+        "basic-key": ["ask", "a1s", "ki"],
+        "identifier": ["ask", "_s1"],
+        "dotted-name": ["a.ks", "s.i"],
+        "dotted-suffix": [".ks", "s.k"],
+        "ipaddr-or-hostname": ["ask.si", "fe80::1", "1.2.3.4"],
+        "integer": ["12", "-1"],
+        "port-number": ["80", "1"],
+        "inet-address": ["host:80", "sk"],
+        "socket-address": ["host:80"],
+        "timedelta": ["1s", "2h", "3w"],
+        "float": ["1e3", "inf"],
+    }
+    for name, ws in words.items():
+        for w in ws:
+            for v in confusable_variants(w, table):
+                _one(res, name, v, nontrivial_by_hash=True, force_nontrivial=True)
+    res.exhaustive_parts.append("accepted words with one letter replaced by each non-ASCII character whose case mapping yields that letter")
+
+
 def _run_lists(res):
+    _run_confusables(res)
     for w in ("yes", "true", "on", "no", "false", "off", "y", "n", "1", "0", "t", "f", "ye",
               "tru", "of", "yess", "onn", "falsee"):
         for v in _case_variants(w):
